@@ -475,6 +475,12 @@ char * label_from_header(const char * source, token * t, scratch_pad * scratch) 
 
 	if (temp_token) {
 		result = label_from_token(source, temp_token);
+
+		if (scratch->extensions & EXT_RANDOM_LABELS) {
+			// The table of contents derives random labels from the position
+			// of the header, so every header has to be counted
+			scratch->label_counter++;
+		}
 	} else {
 		if (scratch->extensions & EXT_RANDOM_LABELS) {
 			srand(scratch->random_seed_base_labels + scratch->label_counter);
